@@ -85,7 +85,9 @@ def r1_schemes(ctx):
                     conj.append(f)
             flatten(val if isinstance(val, tuple) else ip.to_term(st, val))
             okq = False
-            for f in conj:
+            # a scheme may be the returned term itself or a fact of the leaf (loop written out: the leaf that answers
+            # true holds the witness / the exhausted scan in closed form)
+            for f in conj + [g for g in st.pc if g[0] == 'quant']:
                 if ns == 'Union' and quant_matches(f, 'any', rx.child(s, 'Union', 0), lambda x: sub(r, x)):
                     okq = True
                 if nr == 'Inter' and quant_matches(f, 'any', rx.child(r, 'Inter', 0), lambda x: sub(x, s)):
